@@ -5,12 +5,12 @@ package main
 
 import (
 	"fmt"
-	"math"
-	"os"
-	"strconv"
 	"go/token"
 	"go/types"
+	"math"
+	"os"
 	"sort"
+	"strconv"
 	"strings"
 
 	"golang.org/x/tools/go/ssa"
@@ -970,7 +970,7 @@ func init() {
 
 var i9Exceptions = map[string]string{
 	"(starlark.rangeValue).contains: / overflow": "the quotient is only compared with 0 and the length, and only when the remainder is zero; the single wrapping case (delta = MinInt, step = -1) yields a negative quotient and the answer False, which is also the exact answer (the exact quotient 2^63 exceeds every length)",
-	"(lib/time.Duration).Binary: /": "duration / int (operator /, not //): the time module defines it as Go's Duration division, which discards the sub-nanosecond part toward zero",
+	"(lib/time.Duration).Binary: /":              "duration / int (operator /, not //): the time module defines it as Go's Duration division, which discards the sub-nanosecond part toward zero",
 }
 
 // onlyZeroTested: every use of v is an ==/!= comparison.
@@ -1723,12 +1723,12 @@ func init() {
 }
 
 var n10Exceptions = map[string]string{
-	"starlark.FileProgram: .(resolve.Module)":                         "resolve.File stores a *resolve.Module in File.Module whenever it succeeds, and the assertion is dominated by that success (O2)",
-	"starlark.ExecREPLChunk: .(resolve.Module)":                       "resolve.REPLChunk stores a *resolve.Module in File.Module whenever it succeeds, and the assertion is dominated by that success (O2)",
-	"(*starlark.Function).FreeVar: .(starlark.cell)":                  "a closure's freevars tuple is built by MAKEFUNC from the operands the compiler pushes for free variables, which are cells",
-	"(*starlark.frame).Local: .(starlark.Function)":                   "debugger API: documented to be called on frames of Starlark functions only (host contract, not reachable from script input)",
-	"starlark.UnpackArgs: .()":                                        "Go API contract: the pairs argument alternates parameter names (string) and pointers; a violation is a host programming error that panics by design",
-	"starlark.UnpackArgs$1: .()":                                      "Go API contract: the pairs argument alternates parameter names (string) and pointers; a violation is a host programming error that panics by design",
+	"starlark.FileProgram: .(resolve.Module)":        "resolve.File stores a *resolve.Module in File.Module whenever it succeeds, and the assertion is dominated by that success (O2)",
+	"starlark.ExecREPLChunk: .(resolve.Module)":      "resolve.REPLChunk stores a *resolve.Module in File.Module whenever it succeeds, and the assertion is dominated by that success (O2)",
+	"(*starlark.Function).FreeVar: .(starlark.cell)": "a closure's freevars tuple is built by MAKEFUNC from the operands the compiler pushes for free variables, which are cells",
+	"(*starlark.frame).Local: .(starlark.Function)":  "debugger API: documented to be called on frames of Starlark functions only (host contract, not reachable from script input)",
+	"starlark.UnpackArgs: .()":                       "Go API contract: the pairs argument alternates parameter names (string) and pointers; a violation is a host programming error that panics by design",
+	"starlark.UnpackArgs$1: .()":                     "Go API contract: the pairs argument alternates parameter names (string) and pointers; a violation is a host programming error that panics by design",
 	"(lib/proto.EnumValueDescriptor).Attr: .(google.golang.org/protobuf/reflect/protoreflect.EnumDescriptor)": "protoreflect contract: the parent of an enum value descriptor is its enum descriptor",
 }
 
@@ -2173,12 +2173,12 @@ func init() {
 }
 
 var n9Exceptions = map[string]string{
-	"(*syntax.scanner).peekRune: sc.rest[0]":                     "eof() is false here: either rest was non-empty or readLine() returned true, which it does only after storing a non-empty line in sc.rest",
-	"(*syntax.TupleExpr).Span: x.List[0]":                        "parser invariant: a tuple expression without parentheses has at least one element (the empty tuple is always written ())",
-	"starlark.reserveAddresses: value[0]":                        "first byte of the successfully mmap'ed 4GB region",
-	"starlark.string_removefix: b.name[6]":                       "shared implementation of exactly two methods, removeprefix and removesuffix (12 characters each)",
-	"*: strings.Split()[0]":                                      "guarded by excess = len(res) - maxsplit > 0 with maxsplit >= 0 on this branch, so res is non-empty (strings.Split never returns an empty slice for a non-empty separator)",
-	"lib/json.decode$4: s[0]":                                    "num is the number token just scanned: this branch is entered on '-' or a digit, which the scan loop consumes, so the token is non-empty",
+	"(*syntax.scanner).peekRune: sc.rest[0]": "eof() is false here: either rest was non-empty or readLine() returned true, which it does only after storing a non-empty line in sc.rest",
+	"(*syntax.TupleExpr).Span: x.List[0]":    "parser invariant: a tuple expression without parentheses has at least one element (the empty tuple is always written ())",
+	"starlark.reserveAddresses: value[0]":    "first byte of the successfully mmap'ed 4GB region",
+	"starlark.string_removefix: b.name[6]":   "shared implementation of exactly two methods, removeprefix and removesuffix (12 characters each)",
+	"*: strings.Split()[0]":                  "guarded by excess = len(res) - maxsplit > 0 with maxsplit >= 0 on this branch, so res is non-empty (strings.Split never returns an empty slice for a non-empty separator)",
+	"lib/json.decode$4: s[0]":                "num is the number token just scanned: this branch is entered on '-' or a digit, which the scan loop consumes, so the token is non-empty",
 }
 
 func ruleN9(c *Ctx) {
@@ -4995,31 +4995,31 @@ func ruleQ8(c *Ctx) {
 			continue
 		}
 		f := f
-	eachInstr(f, func(in ssa.Instruction) {
-		cl, ok := in.(*ssa.Call)
-		if !ok || in.Parent() != f {
-			return
-		}
-		if cal := cl.Call.StaticCallee(); cal == nil || cal.String() != "strconv.ParseUint" {
-			return
-		}
-		for _, r := range *cl.Referrers() {
-			ex, ok := r.(*ssa.Extract)
-			if !ok || ex.Index != 0 || ex.Referrers() == nil {
-				continue
+		eachInstr(f, func(in ssa.Instruction) {
+			cl, ok := in.(*ssa.Call)
+			if !ok || in.Parent() != f {
+				return
 			}
-			for _, u := range *ex.Referrers() {
-				if bo, ok := u.(*ssa.BinOp); ok {
-					if k, ok := constInt(bo.Y); ok && k == 0x10FFFF {
-						call, fn = cl, f
-					}
-					if k, ok := constInt(bo.X); ok && k == 0x10FFFF {
-						call, fn = cl, f
+			if cal := cl.Call.StaticCallee(); cal == nil || cal.String() != "strconv.ParseUint" {
+				return
+			}
+			for _, r := range *cl.Referrers() {
+				ex, ok := r.(*ssa.Extract)
+				if !ok || ex.Index != 0 || ex.Referrers() == nil {
+					continue
+				}
+				for _, u := range *ex.Referrers() {
+					if bo, ok := u.(*ssa.BinOp); ok {
+						if k, ok := constInt(bo.Y); ok && k == 0x10FFFF {
+							call, fn = cl, f
+						}
+						if k, ok := constInt(bo.X); ok && k == 0x10FFFF {
+							call, fn = cl, f
+						}
 					}
 				}
 			}
-		}
-	})
+		})
 	}
 	key := "syntax.unquote: \\u escape range"
 	if call == nil {
